@@ -8,7 +8,7 @@ from .c01 import reply_ok
 
 ID = "C05"
 BUDGET = {"quick": 45, "thorough": 900}
-MAX_RUNS = {"quick": 1500, "thorough": 400000}
+MAX_RUNS = {"quick": 8000, "thorough": 400000}
 TECHNIQUE = "deterministic simulation with fault injection: grammar-aware hostile bytes, datagrams, truncations, stalls and hostile upstream replies against every listener and connector of the real binary (panic = unwind so a run can report), canary connections as liveness oracle"
 RULE = ("plans: 1-6 hostile peers (mutated HTTP/SOCKS4/SOCKS5/auth messages: flips, truncation at a seeded offset, boundary lengths, huge method/header counts, noise; TLS "
         "garbage; RPFM frames with extreme header fields on a UDP-over-HTTP stream; garbage SOCKS-UDP datagrams; 0-3 byte and arbitrary QUIC datagrams and garbage QUIC "
